@@ -383,10 +383,10 @@ def stepIndicator (d : Drv) (line : String) : Drv × Option String :=
                 | _ => (false, false)
               -- no guard in the code and a zero exact denominator: the formula is not defined there (zero total volume)
               if undefined then ({ d with cs := .ind i, exempt := d.exempt + 1 }, none)
-              else if residue then
-                imismatch d "ind-range" (i.name ++ ":" ++ (m.splitOn " ").headD "" ++ "-residue") m line (.ind { i with cmpRange := false })
               else if ((m.splitOn " ").headD "").endsWith "doc-range" then
                 imismatch d "ind-range" (i.name ++ ":" ++ (m.splitOn " ").headD "") m line (.ind { i with cmpRange := false })
+              else if residue then
+                imismatch d "ind-range" (i.name ++ ":" ++ (m.splitOn " ").headD "" ++ "-residue") m line (.ind { i with cmpRange := false })
               else imismatch d "ind-range" (tag m) m line (.ind { i with cmpRange := false })
             | none, some m, _ =>
               let cls := if (m.splitOn "non-finite").length > 1 then "ind-finite" else "ind-value"
